@@ -153,6 +153,10 @@ def generate(tier, rng):
       for b in blocks:
         for _ in range(4):
           yield _t(2 ** k, b, {'basis': rng.randrange(2 ** k)}, True, 1)
+  # generic float vectors ("up to rounding"): judged against a float64 reference with tolerance, oracle only
+  for k in (3, 7, 10, 14):
+    for b in (None, 4, 16):
+      yield _t(2 ** k, b, {'fseed': rng.randrange(1, 2 ** 30)}, True, 1)
   # invalid / boundary block sizes
   for b in (1, 0, -2):
     yield _t(8, b, {'seed': 5}, True, 1)
@@ -243,6 +247,14 @@ def run_T(case):
           mism = i
         outs += yi
       obs.update(hash=hash_z(outs), mismatch=mism, nonint=nonint, n_out=len(outs), dtype='float32')
+      return obs
+    if 'fseed' in case['vec']:
+      xf = np.random.RandomState(case['vec']['fseed']).uniform(-3, 3, size=n).astype(np.float32)
+      yf = np.asarray(_call_wht(jnp.asarray(xf), block, case['jit'], case['kw']), np.float64)
+      ref = ref_fwht(xf.astype(np.float64))
+      obs.update(n_out=int(yf.size), dtype='float32', nonint=False, mismatch=None, hash=0,
+                 float_err=float(np.max(np.abs(yf - ref))) if yf.size == n else float('inf'),
+                 float_scale=float(np.max(np.abs(xf))) * n)
       return obs
     xs = _vec(case)
     x = jnp.asarray(np.array(xs, np.float32))
@@ -481,6 +493,8 @@ def oracle(case, obs):
       return out
     if obs['n_out'] != (n * n if case['vec'].get('basis_all') else n) or obs['dtype'] != 'float32':
       out.append(('transform-shape', 'output length / dtype changed'))
+    if 'float_err' in obs and not obs['float_err'] <= 1e-5 * obs['float_scale']:
+      out.append(('transform-value', f'float input: differs from the float64 Sylvester-Hadamard product by {obs["float_err"]}'))
     if obs['nonint'] or obs['mismatch'] is not None:
       out.append(('transform-value', f'differs from the Sylvester-Hadamard product at index/basis vector {obs["mismatch"]}'))
     if 'invol_err' in obs and not obs['invol_err'] <= 1e-4 * n * 8:
@@ -554,6 +568,8 @@ def encode(case, obs):
   kind = case['kind']
   if kind == 'T':
     v, n = case['vec'], case['n']
+    if 'fseed' in v:
+      return None
     if v.get('basis_all'):
       if n > 256:
         return None
